@@ -18,13 +18,6 @@ Definition is_to (s : selv) : bool :=
 Definition n_diffs_of (s : selv) (y : nat) : nat := if is_to s then S y else y.
 Definition n_parents_of (nd : nat) : nat := 1 + 2 * nd.
 
-Fixpoint all_some {A} (l : list (option A)) : option (list A) :=
-  match l with
-  | [] => Some []
-  | Some a :: t => option_map (cons a) (all_some t)
-  | None :: _ => None
-  end.
-
 (* pop[parents] then swapaxes: tensor[j][i] = X[P[i][j]]  (IndexError -> None) *)
 Definition gather (popX : list (list N)) (P : list (list nat)) (j : nat) : option (list (list N)) :=
   all_some (map (fun row => match nth_error row j with Some p => nth_error popX p | None => None end) P).
